@@ -20,6 +20,19 @@ Tie to the code, every run:
               sample and points, scalar vs array, shift / scale for the three bandwidth
               modes, cdf monotone / limits / = integral of pdf, and the exact KDE sum
               (decimal arithmetic) against the proved truncation bound.
+
+Round 4 (Model/KdeInputs.v, Proofs/KdeInputsProofs.v, Properties/C12Inputs.v): HOW the sample
+and the points are handed over is part of every case:
+  dtype       integer-typed samples / points (int8 .. uint64, small counts to 2^63 time-stamps;
+              differences far above 2^32) -- Coq's `to_double` must reproduce the binary64
+              values the estimator holds, then the usual structure / value comparison;
+  scale       the whole case multiplied by 2^e, |e| up to 900 (h^2 under/overflows);
+  container   list, ndarray, an ordered ndarray, an ordered strided view, an ordered 2-D array,
+  after       and the caller's own in-place change of that array between construction and the
+              observation (rescale, refill, reverse): the tables are read back AFTER it;
+  histories   several buffers / estimators / caller updates: after every event every
+              `kde.sample` and every caller array is compared with the object-history model
+              (`check_history`), evaluations must stay bit-identical.
 """
 from __future__ import annotations
 
@@ -42,6 +55,18 @@ THEOREMS = ["C12_slice_covers", "C12_pdf_truncation_bound", "C12_pdf_nonneg",
             "C12_cdf_monotone_within_region", "C12_cdf_truncation_bound_partial",
             "C12_rule_of_thumb_equivariant", "C12_cv_grid_equivariant",
             "C12_cv_grid_pinned_refuted"]
+
+THEOREMS_INPUTS = ["C12_history_estimate_frozen", "C12_history_faithful", "C12_history_reachable_wf",
+                   "C12_history_pdf_faithful", "C12_history_caller_untouched", "C12_alias_constructor_refuted",
+                   "C12_to_double_exact", "C12_to_double_error", "C12_narrow_int_exact", "C12_dx_repaired_exact",
+                   "C12_dx_pinned_refuted", "C12_dx_pinned_exact_without_overflow", "C12_integer_square_refuted",
+                   "C12_kernel_sum_affine", "C12_cdf_sum_affine", "C12_exact_pdf_affine", "C12_exact_cdf_affine"]
+
+HEADER_INPUTS = """From Coq Require Import List ZArith QArith.
+From IT Require Import Model.KdeRegions Model.KdeInputs.
+Import ListNotations.
+Open Scope Q_scope.
+"""
 
 HEADER = """From Coq Require Import List ZArith QArith.
 From IT Require Import Model.KdeRegions.
@@ -122,7 +147,7 @@ def gen_struct_case(r, tier, wide_ok=True):
     return {"sample": xs, "h": h, "kind": kind}
 
 
-def gen_points(r, sample, h, edges):
+def gen_points(r, sample, h, edges, unit=Fraction(1)):
     lo, hi = min(sample), max(sample)
     R = hi - lo
     pts = []
@@ -133,34 +158,171 @@ def gen_points(r, sample, h, edges):
     pts.append(C.frac(edges[0]))
     pts.append(C.frac(edges[-1]))
     pts.append(r.choice(sample))
-    pts += [lo - 100 * R, hi + 100 * R, lo - h / 2, hi + 3 * h, lo - 4 * h, hi + Fraction(1, 1024)]
+    pts += [lo - 100 * R, hi + 100 * R, lo - h / 2, hi + 3 * h, lo - 4 * h, hi + unit * Fraction(1, 1024)]
     r.shuffle(pts)
     return pts
 
 
+# ---------------------------------------------------------------- how the sample is handed over (round 4)
+ITYPES = {"int8": "I8", "uint8": "U8", "int16": "I16", "uint16": "U16", "int32": "I32", "uint32": "U32",
+          "int64": "I64", "uint64": "U64"}
+CFG_KEYS = ("sdtype", "xdtype", "hint", "container", "after", "sfloat", "xfloat")
+CONTAINERS = ["array", "list", "sorted_array", "sorted_slice", "sorted_strided", "sorted_2d"]
+
+
+def cfg_of(case):
+    return {k: case[k] for k in CFG_KEYS if case.get(k) is not None}
+
+
+def plain(cfg, keep=()):
+    """the same configuration without sharing (fresh array, no later change by the caller)"""
+    return {k: v for k, v in (cfg or {}).items() if k in keep}
+
+
+def eff(v) -> Fraction:
+    """the binary64 value of an integer (Python's int -> float conversion: nearest, ties to even)"""
+    return C.frac(float(int(v)))
+
+
+def safe_range(dt):
+    """integers of dtype dt whose binary64 value is again in the type's range"""
+    info = np.iinfo(dt)
+    lo, hi = int(info.min), int(info.max)
+    if info.bits == 64:
+        lo, hi = (-(2 ** 62), 2 ** 62) if lo < 0 else (0, 2 ** 63)
+    return lo, hi
+
+
+def hand_over(sample, cfg=None, raw=None):
+    """What the caller passes to GaussianKDE.  Returns (handed, base): `handed` goes to the
+    constructor, `base` is the caller's own object that holds the memory."""
+    cfg = cfg or {}
+    dt = cfg.get("sdtype")
+    if dt:
+        arr = np.array([int(v) for v in (raw if raw is not None else sample)], dtype=dt)
+    else:
+        arr = np.array([float(x) for x in sample])
+        if cfg.get("sfloat"):
+            arr = arr.astype(cfg["sfloat"])
+    cont = cfg.get("container") or "array"
+    if cont == "array":
+        return arr, arr
+    if cont == "list":
+        lst = arr.tolist()
+        return lst, lst
+    srt = np.sort(arr)
+    if cont == "sorted_array":
+        return srt, srt
+    if cont == "sorted_slice":
+        big = np.concatenate([srt[:1], srt, srt[-1:]])
+        return big[1:-1], big
+    if cont == "sorted_strided":
+        big = np.repeat(srt, 2)
+        return big[::2], big
+    if cont == "sorted_2d":
+        n = srt.size
+        rows = 2 if n % 2 == 0 else 3 if n % 3 == 0 else 1
+        return srt.reshape(rows, -1), srt
+    raise ValueError(cont)
+
+
+def apply_after(base, after):
+    """the caller's own in-place change of ITS array, after the estimator was constructed"""
+    if not after:
+        return
+    kind = after[0]
+    if isinstance(base, list):
+        if kind == "zero":
+            base[:] = [0] * len(base)
+        elif kind == "reverse":
+            base.reverse()
+        elif kind == "affine":
+            base[:] = [v * after[1] + after[2] for v in base]
+        elif kind == "plus1":
+            base[:] = [v + 1 for v in base]
+        return
+    if kind == "zero":
+        base[...] = 0
+    elif kind == "reverse":
+        base[...] = base[::-1].copy()
+    elif kind == "affine":
+        base *= after[1]
+        base += after[2]
+    elif kind == "plus1":
+        base += 1
+    else:
+        raise ValueError(kind)
+
+
+def points_array(pts, cfg=None):
+    xd = (cfg or {}).get("xdtype")
+    if xd:
+        return np.array([int(p) for p in pts], dtype=xd)
+    x = np.array([float(p) for p in pts])
+    xf = (cfg or {}).get("xfloat")
+    if xf and all(C.frac(v) == p for v, p in zip(x.astype(xf), pts)):      # only when the narrower type carries them exactly
+        x = x.astype(xf)
+    return x
+
+
+def fit_points(case, pts):
+    """evaluation points the case's point dtype can carry (integers inside the type, as binary64 values)"""
+    xd = case.get("xdtype")
+    if not xd:
+        return list(pts)
+    lo_t, hi_t = safe_range(xd)
+    out = []
+    for p in pts:
+        v = eff(min(max(math.floor(p), lo_t), hi_t))
+        if v not in out:
+            out.append(v)
+    return out
+
+
 # ---------------------------------------------------------------- running the code
-def build(sample, h=None, cv=False, cls=None):
+def build_cfg(sample, h=None, cv=False, cls=None, cfg=None, raw=None):
+    """Constructs the estimator the way `cfg` says, then lets the caller change its own array.
+    Returns (kde, info)."""
     cls = cls or KDE()
+    cfg = cfg or {}
     with warnings.catch_warnings():
         warnings.simplefilter("ignore")
-        arr = np.array([float(x) for x in sample])
+        handed, base = hand_over(sample, cfg, raw)
+        snap = list(base) if isinstance(base, list) else base.copy()
         if h is not None:
-            return cls(arr, bandwidth=float(h))
-        return cls(arr, cross_validation=cv)
+            kde = cls(handed, bandwidth=(int(h) if cfg.get("hint") else float(h)))
+        else:
+            kde = cls(handed, cross_validation=cv)
+        same = (base == snap) if isinstance(base, list) else bool(np.array_equal(base, snap))
+        apply_after(base, cfg.get("after"))
+    return kde, {"ctor_changed_caller": not same, "base": base}
+
+
+def build(sample, h=None, cv=False, cls=None, cfg=None, raw=None):
+    return build_cfg(sample, h, cv, cls, cfg, raw)[0]
 
 
 def observe_structure(case, r):
     """Runs the implementation; returns dict(status, ...observed tables...)."""
+    cfg = cfg_of(case)
     try:
-        kde = build(case["sample"], case["h"])
+        kde, info = build_cfg(case["sample"], case["h"], cfg=cfg, raw=case.get("raw_sample"))
     except Exception as e:
         return {"status": "exception", "error": repr(e)[:300]}
     try:
         n = int(kde.tree.n)
         edges = [C.frac(v) for v in kde.tree.edges]
-        pts = gen_points(r, case["sample"], case["h"], kde.tree.edges)
-        x = np.array([float(p) for p in pts])
-        assert all(C.frac(v) == p for v, p in zip(x, pts))
+        pts = gen_points(r, case["sample"], case["h"], kde.tree.edges,
+                         case.get("unit", case.get("unit_pts", Fraction(1))))
+        raw_pts = None
+        if cfg.get("xdtype"):
+            lo_t, hi_t = safe_range(cfg["xdtype"])
+            raw_pts = [min(max(math.floor(p), lo_t), hi_t) for p in pts]
+            pts = [eff(v) for v in raw_pts]
+            x = np.array(raw_pts, dtype=cfg["xdtype"])
+        else:
+            x = points_array(pts, cfg)
+        assert all(C.frac(float(v)) == p for v, p in zip(x, pts))
         labels, groups = kde.tree.region_groups(x)
         groups = [(int(l), sorted(int(i) for i in g)) for l, g in zip(labels, groups)]
         regions = [None] * len(pts)
@@ -175,13 +337,117 @@ def observe_structure(case, r):
             warnings.simplefilter("ignore")
             pdf = np.atleast_1d(kde(x)).astype(float)
             cdf = np.atleast_1d(kde.cdf(x)).astype(float)
-        return {"status": "ok", "kde": kde, "n": n, "edges": edges, "points": pts,
+        return {"status": "ok", "kde": kde, "n": n, "edges": edges, "points": pts, "raw_points": raw_pts,
                 "sorted": [C.frac(v) for v in kde.sample],
                 "slices": [(int(s.start), int(s.stop)) for s in kde.slices],
                 "offsets": [C.frac(v) for v in kde.cdf_offsets],
                 "regions": regions, "groups": groups, "pdf": pdf, "cdf": cdf, "x": x}
     except Exception as e:
         return {"status": "exception", "error": repr(e)[:300]}
+
+
+# ---------------------------------------------------------------- generation of the round-4 cases
+def gen_int_case(r, tier):
+    """integer-typed sample (and mostly integer-typed points)"""
+    sub = r.choice(["narrow", "narrow", "counts", "big", "big", "big", "huge"])
+    n = r.randint(3, 24)
+    if sub == "narrow":
+        sd = r.choice(["int8", "uint8", "int16", "uint16"])
+        info = np.iinfo(sd)
+        span = int(info.max) - int(info.min)
+        lo, hi = int(info.min) + r.randint(0, span // 8), int(info.max) - r.randint(0, span // 8)
+        raw = [r.randint(lo, hi) for _ in range(n)]
+        xd = r.choice([sd, sd, sd, r.choice(["int8", "uint8", "int16", "uint16", "int64"]), None])
+        f = 10 ** r.uniform(-2, 0.6)
+    elif sub == "counts":
+        sd = r.choice(["int64", "int32", "uint32", "uint64", "uint16"])
+        lam = r.choice([3, 40, 1000])
+        raw = [max(0, int(round(r.gauss(lam, math.sqrt(lam))))) for _ in range(n)]
+        xd = r.choice([sd, sd, "int64", None])
+        f = 10 ** r.uniform(-1.5, 0.6)
+    elif sub == "big":
+        # time-stamps / large counters: differences far above 2^32, everything below 2^53.  Values are
+        # (A + m) 2^j with a short A + m, so that linspace / the mid-points stay exact in binary64 (as in
+        # every other case: the model computes the edges exactly)
+        sd = r.choice(["int64", "int64", "int64", "uint64"])
+        j = r.randint(20, 34)
+        A = r.randint(0, 2 ** min(28, 51 - j)) * (1 if sd == "uint64" else r.choice([-1, 1, 1]))
+        mb = r.randint(13, 17)
+        raw = [(A + r.randint(0, 2 ** mb) + (2 ** (mb + 2) if r.random() < 0.3 else 0)) * 2 ** j for _ in range(n)]
+        if sd == "uint64":
+            raw = [abs(v) for v in raw]
+        xd = r.choice([sd, sd, sd, "int64", None])
+        f = 10 ** r.uniform(-1.8, 0.3)
+    else:
+        # beyond 2^53: the conversion to binary64 rounds.  raw = M 2^j + d with |d| at most half a unit in
+        # the last place (ties included), so the binary64 values M 2^j again have short significands
+        sd = r.choice(["int64", "uint64"])
+        j = r.randint(45, 50)
+        top = 61 if sd == "int64" else 62
+        M = [r.randint(2 ** (54 - j), 2 ** (top - j)) * (r.choice([-1, 1]) if sd == "int64" else 1) for _ in range(n)]
+        raw = []
+        for m in M:
+            v = m * 2 ** j
+            half = 2 ** (abs(v).bit_length() - 54)
+            d = r.choice([r.randint(-half, half), half, -half, 0, r.randint(-half, half)])
+            if abs(v + d).bit_length() != abs(v).bit_length():
+                d = 0
+            raw.append(v + d)
+        xd = r.choice([sd, sd, None])
+        f = 10 ** r.uniform(-1.2, 0.3)
+    if r.random() < 0.3:
+        raw[r.randrange(n)] = raw[r.randrange(n)]            # a tie
+    if len(set(eff(v) for v in raw)) < 2:
+        raw[0] = raw[0] + (2 ** 50 if sub == "huge" else 2 ** 34 if sub == "big" else 1) * (1 if raw[0] <= 0 else -1)
+    xs = [eff(v) for v in raw]
+    rng_ = max(xs) - min(xs)
+    h = dyadic_near(rng_ * Fraction(f).limit_denominator(10 ** 6))
+    case = {"sample": xs, "raw_sample": raw, "h": h, "kind": "int:" + sub, "sdtype": sd}
+    if sub in ("big", "huge"):
+        case["unit_pts"] = Fraction(2) ** (j + 10)      # "just outside the data" in units the values can carry
+    if xd:
+        case["xdtype"] = xd
+    if h.denominator == 1 and r.random() < 0.4:
+        case["hint"] = True
+    if r.random() < 0.25:
+        case["container"] = r.choice(["sorted_array", "sorted_slice", "list", "sorted_2d"])
+        case["after"] = r.choice([["zero"], ["reverse"], ["plus1"]])
+    return case
+
+
+def gen_scale_case(r, tier):
+    """an ordinary case multiplied by 2^e: squares of the bandwidth leave the binary64 range"""
+    e = r.choice([-1, 1]) * (r.randint(500, 900) if r.random() < 0.7 else r.randint(60, 400))
+    # Q arithmetic in Coq does not reduce fractions: with 2^-900-size values every region costs
+    # multiplications of 10^4-bit numbers, so these cases keep to few regions (the class is the
+    # arithmetic at the scale, not the number of regions; the ordinary cases have up to 4096)
+    max_ratio = 24 if e < 0 else 400
+    for _ in range(200):
+        base = gen_struct_case(r, tier)
+        if (max(base["sample"]) - min(base["sample"])) / base["h"] <= max_ratio:
+            break
+    u = Fraction(2) ** e
+    return {"sample": [x * u for x in base["sample"]], "h": base["h"] * u, "kind": "scale:" + base["kind"],
+            "unit": u, "scale_exp": e}
+
+
+def gen_shared_case(r, tier):
+    """the caller keeps the array it handed over and changes it in place afterwards"""
+    for _ in range(200):         # up to 8 layers: the ordinary cases cover the large region tables
+        case = gen_struct_case(r, tier)
+        if (max(case["sample"]) - min(case["sample"])) / case["h"] <= 200:
+            break
+    case["container"] = r.choice(["sorted_array", "sorted_array", "sorted_slice", "sorted_strided", "sorted_2d",
+                                  "list", "array"])
+    case["after"] = r.choice([["affine", 2.0 ** r.randint(-3, 6), float(r.randint(-50, 50))],
+                              ["affine", 3.0, -7.0], ["zero"], ["reverse"], ["plus1"]])
+    case["kind"] = "shared:" + case["kind"]
+    # the same values carried by float32 arrays (only when float32 holds them exactly)
+    if r.random() < 0.35 and all(C.frac(np.float32(float(v))) == v for v in case["sample"]):
+        case["sfloat"] = "float32"
+    if r.random() < 0.35:
+        case["xfloat"] = "float32"
+    return case
 
 
 # ---------------------------------------------------------------- the property, evaluated on the implementation
@@ -216,35 +482,57 @@ def n_excluded(kde, x):
         return [N] * len(np.atleast_1d(x))
 
 
-def property_failures(sample, h, pts, r=None, deep=True):
-    """C12 itself on the implementation for a user bandwidth.  Returns list of strings."""
+def value_failures(kde, sample, h, pts, x, pdf, cdf, unit=Fraction(1)):
+    """density / cumulative function against the exact estimate of `sample` with bandwidth h.
+    `unit`: scale of the data (2^e for the rescaled cases): a density has the unit 1/unit, and a kernel
+    exp(-z^2/2) below the binary64 range underflows to 0 whatever the scale, so the absolute slack
+    (1e-300 at scale one) is 1e-300/unit for tiny scales."""
     bad = []
-    try:
-        kde = build(sample, h)
-        x = np.array([float(p) for p in pts])
-        with warnings.catch_warnings():
-            warnings.simplefilter("ignore")
-            pdf = np.atleast_1d(kde(x)).astype(float)
-            cdf = np.atleast_1d(kde.cdf(x)).astype(float)
-    except Exception as e:
-        return [f"GaussianKDE raised on a valid input: {e!r}"[:300]]
     N = len(sample)
     hf = float(h)
     nex = n_excluded(kde, x)
     for i, p in enumerate(pts):
         ex = exact_pdf(sample, h, p)
         bound = nex[i] / N * E6125 / (hf * math.sqrt(2 * math.pi))
-        slack = 1e-11 * ex + 1e-300
+        slack = 1e-11 * ex + (1e-300 / float(unit) if unit < 1 else 1e-300)
         if not pdf[i] >= 0.0:
             bad.append(f"pdf({float(p)}) = {pdf[i]} is negative")
         elif pdf[i] > ex + slack or ex - pdf[i] > bound + slack:
-            bad.append(f"pdf({float(p)}) = {pdf[i]!r} but the exact KDE is {ex!r}: outside the truncation "
+            bad.append(f"pdf({float(p)}) = {float(pdf[i])!r} but the exact KDE is {ex!r}: outside the truncation "
                        f"bound [0, {bound:.3e}] (excluded {nex[i]}/{N})")
         cex = exact_cdf(sample, h, p)
-        if abs(cdf[i] - cex) > nex[i] / N * PHI_TAIL + 1e-11:
-            bad.append(f"cdf({float(p)}) = {cdf[i]!r} but the exact KDE cdf is {cex!r} "
+        if not abs(cdf[i] - cex) <= nex[i] / N * PHI_TAIL + 1e-11:
+            bad.append(f"cdf({float(p)}) = {float(cdf[i])!r} but the exact KDE cdf is {cex!r} "
                        f"(allowed {nex[i] / N * PHI_TAIL:.3e})")
-    order = np.argsort(x, kind="stable")
+    return bad
+
+
+def cfg_text(cfg):
+    return (" [" + ", ".join(f"{k}={v}" for k, v in cfg.items()) + "]") if cfg else ""
+
+
+def property_failures(sample, h, pts, r=None, deep=True, cfg=None, raw=None, unit=Fraction(1)):
+    """C12 itself on the implementation for a user bandwidth.  Returns list of strings.
+    `cfg` says how the sample / the points are handed over (dtype, container, what the caller
+    does with its array afterwards); the estimate must be the one of the VALUES `sample`."""
+    bad = []
+    cfg = cfg or {}
+    try:
+        kde, info = build_cfg(sample, h, cfg=cfg, raw=raw)
+        x = points_array(pts, cfg)
+        with warnings.catch_warnings():
+            warnings.simplefilter("ignore")
+            pdf = np.atleast_1d(kde(x)).astype(float)
+            cdf = np.atleast_1d(kde.cdf(x)).astype(float)
+    except Exception as e:
+        return [f"GaussianKDE raised on a valid input{cfg_text(cfg)}: {e!r}"[:300]]
+    if info["ctor_changed_caller"]:
+        bad.append("the constructor changed the array it was given")
+    vb = value_failures(kde, sample, h, pts, x, pdf, cdf, unit)
+    if vb and cfg:
+        vb = [v + cfg_text(cfg) for v in vb]
+    bad += vb
+    order = np.argsort(x.astype(float), kind="stable")
     cs = cdf[order]
     if np.any(np.diff(cs) < -1e-12):
         k = int(np.argmin(np.diff(cs)))
@@ -266,27 +554,47 @@ def property_failures(sample, h, pts, r=None, deep=True):
         c2 = np.atleast_1d(kde.cdf(x[perm]))
         if not all(close(p2[j], pdf[perm[j]]) and close(c2[j], cdf[perm[j]]) for j in range(len(perm))):
             bad.append("results change when the evaluation points are reordered")
-        sp = list(sample)
-        r.shuffle(sp)
+        idx = list(range(len(sample)))
+        r.shuffle(idx)
+        sp = [sample[i] for i in idx]
+        rp = [raw[i] for i in idx] if raw is not None else None
+        fresh = plain(cfg, ("sdtype", "xdtype", "hint", "sfloat", "xfloat"))
         try:
-            k2 = build(sp, h)
+            k2 = build(sp, h, cfg=fresh, raw=rp)
             if not (np.allclose(np.atleast_1d(k2(x)), pdf, rtol=1e-12, atol=0) and
                     np.allclose(np.atleast_1d(k2.cdf(x)), cdf, rtol=1e-12, atol=1e-15)):
-                bad.append("results change when the sample is reordered")
+                bad.append("results change when the sample is reordered" +
+                           (" and handed over as a fresh array" if cfg.get("container") or cfg.get("after") else ""))
         except Exception as e:
             bad.append(f"reordered sample raises {e!r}"[:200])
-        # shift / scale (exact in binary: a = 2^k, b dyadic)
-        for a, b in ((Fraction(1024), Fraction(0)), (Fraction(1, 1024), Fraction(0)),
-                     (Fraction(1), Fraction(4096)), (Fraction(8), Fraction(-1000))):
+        # the dtype that carries the values must not matter
+        if cfg.get("sdtype") or cfg.get("xdtype") or cfg.get("hint") or cfg.get("sfloat") or cfg.get("xfloat"):
+            try:
+                kf = build(sample, h)
+                xf = np.array([float(p) for p in pts])
+                if not (np.allclose(np.atleast_1d(kf(xf)), pdf, rtol=1e-9, atol=1e-300) and
+                        np.allclose(np.atleast_1d(kf.cdf(xf)), cdf, rtol=1e-9, atol=1e-12)):
+                    bad.append(f"the same values give a different estimate when carried as float64{cfg_text(cfg)}")
+            except Exception as e:
+                bad.append(f"float64 copy of the input raises {e!r}"[:200])
+        # shift / scale (exact in binary: a = 2^k, b dyadic); for cases at ordinary scale also by 2^+-600
+        maps = [(Fraction(1024), Fraction(0)), (Fraction(1, 1024), Fraction(0)),
+                (Fraction(1), 4096 * unit), (Fraction(8), -1000 * unit)]
+        if unit == 1:
+            maps += [(Fraction(2) ** -600, Fraction(0)), (Fraction(2) ** 600, Fraction(0))]
+        for a, b in maps:
             try:
                 k3 = build([a * s + b for s in sample], a * h)
                 x3 = np.array([float(a * p + b) for p in pts])
                 p3 = np.atleast_1d(k3(x3)) * float(a)
                 c3 = np.atleast_1d(k3.cdf(x3))
-                if not (np.allclose(p3, pdf, rtol=1e-9, atol=1e-300) and np.allclose(c3, cdf, rtol=1e-9, atol=1e-12)):
-                    bad.append(f"not covariant under x -> {a}*x + {b} (bandwidth {a}*h)")
+                # a density below the binary64 range of the RESCALED estimate underflows there, legitimately
+                atol = 1e-300 * float(a) if a > 2 ** 100 else 1e-300
+                if not (np.allclose(p3, pdf, rtol=1e-9, atol=atol) and
+                        np.allclose(c3, cdf, rtol=1e-9, atol=1e-12)):
+                    bad.append(f"not covariant under x -> {float(a)}*x + {float(b)} (bandwidth {float(a)}*h)")
             except Exception as e:
-                bad.append(f"x -> {a}*x + {b} raises {e!r}"[:200])
+                bad.append(f"x -> {float(a)}*x + {float(b)} raises {e!r}"[:200])
     return bad
 
 
@@ -314,14 +622,218 @@ BITS = ["sorted sample", "tree edges (linspace)", "slices (searchsorted cut-offs
         "coverage condition range <= 2^n h (layer count)"]
 
 
+def coq_dtype_case(case, obs):
+    zl = lambda zs: C.clist([C.cz(z) for z in zs]) + "%Z"
+    xt = f"(Some {ITYPES[case['xdtype']]})" if case.get("xdtype") else "None"
+    return ("Build_dtype_case " + " ".join([
+        ITYPES[case["sdtype"]], xt, zl(case["raw_sample"]), zl(obs["raw_points"] or []),
+        "(" + coq_struct_case(case, obs) + ")"]))
+
+
+DTYPE_BITS = ["a raw value lies outside its integer type", "binary64 values of the integer sample (to_double)",
+              "binary64 values of the integer evaluation points (to_double)"]
+
+
 def describe(case, pts=None):
     d = {"sample_hex": [float(x).hex() for x in case["sample"]],
          "sample": [float(x) for x in case["sample"]],
          "bandwidth_hex": float(case["h"]).hex() if case.get("h") is not None else None,
          "bandwidth": float(case["h"]) if case.get("h") is not None else None}
+    if case.get("raw_sample") is not None:
+        d["raw_sample"] = [int(v) for v in case["raw_sample"]]
+    if cfg_of(case):
+        d["cfg"] = cfg_of(case)
+    if case.get("scale_exp") is not None:
+        d["scale_exp"] = case["scale_exp"]
     if pts is not None:
         d["points_hex"] = [float(p).hex() for p in pts]
     return d
+
+
+def case_from_replay(c):
+    case = {"sample": [C.frac(float.fromhex(v)) for v in c["sample_hex"]],
+            "h": C.frac(float.fromhex(c["bandwidth_hex"]))}
+    if c.get("raw_sample") is not None:
+        case["raw_sample"] = [int(v) for v in c["raw_sample"]]
+    case.update(c.get("cfg") or {})
+    if c.get("scale_exp") is not None:
+        case["scale_exp"] = int(c["scale_exp"])
+        case["unit"] = Fraction(2) ** int(c["scale_exp"])
+    return case
+
+
+def case_failures(case, pts, r=None, deep=True):
+    return property_failures(case["sample"], case["h"], pts, r, deep, cfg_of(case), case.get("raw_sample"),
+                             case.get("unit", Fraction(1)))
+
+
+# ---------------------------------------------------------------- object histories (round 4)
+VIEWS = ["all", "all", "slice", "strided", "reversed", "2d"]
+
+
+def view_of(buf, view):
+    n = buf.size
+    if view == "all":
+        return buf, list(range(n))
+    if view == "slice":
+        return buf[1:-1], list(range(1, n - 1))
+    if view == "strided":
+        return buf[::2], list(range(0, n, 2))
+    if view == "reversed":
+        return buf[::-1], list(range(n - 1, -1, -1))
+    if view == "2d":
+        rows = 2 if n % 2 == 0 else 3 if n % 3 == 0 else 1
+        return buf.reshape(rows, -1), list(range(n))
+    raise ValueError(view)
+
+
+def distinct(vals):
+    """the same values with ties moved apart (a history needs a non-degenerate sample in every view)"""
+    out, seen = [], set()
+    top = max(vals)
+    for v in vals:
+        while v in seen:
+            top += 1
+            v = top
+        seen.add(v)
+        out.append(v)
+    return out
+
+
+def gen_history(r, tier):
+    nb = r.choice([1, 1, 2])
+    cells = []
+    for _ in range(nb):
+        n = r.randint(6, 12)
+        sp = r.choice([0, -2, 3])
+        vals = distinct([C.dyadic(r, 7, sp) for _ in range(n)])
+        if r.random() < 0.7:
+            vals.sort()
+        cells.append(vals)
+    events = []
+    n_est = 0
+    n_ev = r.randint(4, 7)
+    for step in range(n_ev):
+        u = r.random()
+        if step == 0 or u < 0.3:
+            events.append({"ev": "construct", "src": r.randrange(nb), "view": r.choice(VIEWS),
+                           "mode": r.choice(["user", "user", "simple", "cv"]),
+                           "hf": [r.randint(1, 8), r.choice([4, 8, 16, 64])]})
+            n_est += 1
+        elif u < 0.6 or step == 1:
+            events.append({"ev": "affine", "src": r.randrange(nb), "a": r.choice([0.5, 2.0, 4.0, 2.0]),
+                           "b": r.randint(-40, 40) / 4})
+        elif u < 0.8:
+            src = r.randrange(nb)
+            sp = r.choice([0, -2, 3])
+            vals = distinct([C.dyadic(r, 7, sp) for _ in range(len(cells[src]))])
+            if r.random() < 0.6:
+                vals.sort()
+            events.append({"ev": "store", "src": src, "vals_hex": [float(v).hex() for v in vals]})
+        else:
+            events.append({"ev": "eval", "k": r.randrange(n_est)})
+    return {"cells_hex": [[float(v).hex() for v in c] for c in cells], "events": events}
+
+
+def run_history(hist):
+    """Runs the history on the implementation.  Returns (coq_events, observations, failures):
+    observations[i] = (caller arrays, every kde.sample) after event i, as exact rationals."""
+    G = KDE()
+    bufs = [np.array([float.fromhex(v) for v in c]) for c in hist["cells_hex"]]
+    ests, obs, bad, evs = [], [], [], []
+    with warnings.catch_warnings():
+        warnings.simplefilter("ignore")
+        for j, ev in enumerate(hist["events"]):
+            try:
+                if ev["ev"] == "construct":
+                    buf = bufs[ev["src"]]
+                    view, sel = view_of(buf, ev["view"])
+                    given = [C.frac(v) for v in np.asarray(view).ravel()]
+                    evs.append(f"EConstruct {C.cnat(ev['src'])} " + C.clist([C.cnat(i) for i in sel]))
+                    snap = buf.copy()
+                    if ev["mode"] == "user":
+                        rng_ = max(given) - min(given)
+                        h = float(dyadic_near(rng_ * Fraction(ev["hf"][0], ev["hf"][1])))
+                        kde = G(view, bandwidth=h)
+                    else:
+                        kde = G(view, cross_validation=(ev["mode"] == "cv"))
+                    if not np.array_equal(buf, snap):
+                        bad.append(f"event {j}: the constructor changed the array it was given")
+                    h = float(kde.h)
+                    lo, hi = float(min(given)), float(max(given))
+                    x = np.linspace(lo - 3 * h, hi + 3 * h, 9)
+                    ests.append({"kde": kde, "given": given, "x": x, "h": C.frac(h), "born": j,
+                                 "pdf": np.atleast_1d(kde(x)).copy(), "cdf": np.atleast_1d(kde.cdf(x)).copy()})
+                elif ev["ev"] == "affine":
+                    bufs[ev["src"]] *= ev["a"]
+                    bufs[ev["src"]] += ev["b"]
+                    evs.append(f"EAffine {C.cnat(ev['src'])} {C.cq(ev['a'])} {C.cq(ev['b'])}")
+                elif ev["ev"] == "store":
+                    vals = [float.fromhex(v) for v in ev["vals_hex"]]
+                    bufs[ev["src"]][:] = vals
+                    evs.append(f"EStore {C.cnat(ev['src'])} {qlist([C.frac(v) for v in vals])}")
+                else:
+                    evs.append(f"EEval {C.cnat(ev['k'])}")
+                    e = ests[ev["k"]]
+                    snaps = [b.copy() for b in bufs]
+                    xq = e["x"].copy()
+                    p1, c1 = np.atleast_1d(e["kde"](xq)), np.atleast_1d(e["kde"].cdf(xq))
+                    keep = (p1.copy(), c1.copy())
+                    e["kde"](xq[::-1] + 0.25 * float(e["h"])), e["kde"].cdf(xq[::-1] + 0.25 * float(e["h"]))
+                    if not (np.array_equal(p1, keep[0]) and np.array_equal(c1, keep[1])):
+                        bad.append(f"event {j}: a later call changed the array an earlier call had returned")
+                    p1 *= 0.0           # the caller may do what it likes with the arrays it was given back
+                    c1 *= 0.0
+                    if not np.array_equal(xq, e["x"]):
+                        bad.append(f"event {j}: an evaluation changed the array of evaluation points")
+                    if not all(np.array_equal(b, s_) for b, s_ in zip(bufs, snaps)):
+                        bad.append(f"event {j}: an evaluation changed an array of the caller")
+            except Exception as e:
+                bad.append(f"event {j} ({ev['ev']}) raises {e!r}"[:250])
+                return evs, obs, bad
+            obs.append(([[C.frac(v) for v in b] for b in bufs], [[C.frac(v) for v in e["kde"].sample] for e in ests]))
+            # every estimator must still be the estimate of the values it was given
+            for k, e in enumerate(ests):
+                try:
+                    p, c = np.atleast_1d(e["kde"](e["x"])), np.atleast_1d(e["kde"].cdf(e["x"]))
+                except Exception as ex:
+                    bad.append(f"after event {j} ({ev['ev']}) estimator {k} raises {ex!r}"[:250])
+                    continue
+                if not (np.array_equal(p, e["pdf"]) and np.array_equal(c, e["cdf"])) and not e.get("told"):
+                    e["told"] = True
+                    vb = value_failures(e["kde"], e["given"], e["h"], [C.frac(v) for v in e["x"]], e["x"],
+                                        p.astype(float), c.astype(float))
+                    bad.append(f"after event {j} ({ev['ev']} by the caller on its own array) estimator {k}, built at "
+                               f"event {e['born']}, no longer returns what it returned before"
+                               + (": " + vb[0] if vb else ""))
+    return evs, obs, bad
+
+
+def coq_hist_case(hist, evs, obs):
+    cl = lambda cells: C.clist([qlist(c) for c in cells])
+    cells = [[C.frac(float.fromhex(v)) for v in c] for c in hist["cells_hex"]]
+    o = C.clist([f"({cl(oc)}, {cl(oe)})" for oc, oe in obs], ";\n   ")
+    return f"Build_hist_case {cl(cells)}\n  {C.clist(evs)}\n  {o}"
+
+
+def shrink_history(hist):
+    """drops events (never the first construction) while the history still fails"""
+    def fails(events):
+        if not events or events[0]["ev"] != "construct":
+            return False
+        n_est = 0
+        for e in events:
+            if e["ev"] == "construct":
+                n_est += 1
+            elif e["ev"] == "eval" and e["k"] >= n_est:
+                return False
+        try:
+            return bool(run_history(dict(hist, events=events))[2])
+        except Exception:
+            return False
+    if not fails(hist["events"]):
+        return hist
+    return dict(hist, events=C.shrink_list(hist["events"], fails, min_len=1, budget=40))
 
 
 # ---------------------------------------------------------------- bandwidth modes
@@ -389,31 +901,26 @@ def run(rep: C.Report, tier: str) -> int:
         rep.coverage["stage_seconds"] = stages
     C.clean_gen(PROP)
     C.prove_and_audit(rep, PROP, THEOREMS)
-    try:      # supplementary theorems (the exact KDE integrates to one; Phi tail property)
-        _a = C.coq_audit("C12_gaussnorm", ['GaussNorm_kde_exact_normalised', 'GaussNorm_kde_exact_total', 'GaussNorm_kde_exact_at_normalised', 'GaussNorm_kde_Phi_tail_property', 'GaussNorm_Phi_limits'], "IT.Properties.GaussNorm")
-        rep.obligation(True, 5)
-        rep.coverage["gaussnorm_audit"] = _a
-    except C.ProofFailure as _e:
-        rep.obligation(False, 5)
-        rep.violation("C12/proof", f"proof obligation no longer checks: {_e.what}",
-                      {"theorem_or_correspondence": _e.what, "log": _e.log[-1000:]}, False)
-    try:      # cumulative-function clauses as theorems (exact cdf monotone / limits / derivative; truncation bound with eps = Phi(-3.5))
-        _cdf = ["C12_exact_cdf_monotone", "C12_exact_cdf_strictly_increasing", "C12_exact_cdf_range", "C12_exact_cdf_limits",
-                "C12_exact_cdf_derivative", "C12_exact_cdf_integral", "C12_exact_cdf_at_monotone", "C12_exact_cdf_at_integral",
-                "C12_Phi_tail_sharp", "C12_Phi_tail_value", "C12_cdf_truncation_bound_lists", "C12_cdf_truncation_bound",
-                "C12_cdf_monotone_across_regions", "C12_cdf_monotone_across_regions_uniform", "C12_cdf_range",
-                "C12_cdf_far_left", "C12_cdf_far_right", "C12_exact_cdf_far_left", "C12_exact_cdf_far_right"]
-        _a = C.coq_audit("C12_cdf", _cdf, "IT.Properties.C12Cdf")
-        rep.obligation(True, len(_cdf))
-        rep.coverage["cdf_theorems_audit"] = _a
-    except C.ProofFailure as _e:
-        rep.obligation(False, 19)
-        rep.violation("C12/proof", f"proof obligation no longer checks: {_e.what}",
-                      {"theorem_or_correspondence": _e.what, "log": _e.log[-1000:]}, False)
+    from concurrent.futures import ThreadPoolExecutor
+    # supplementary theorem files, audited in a background thread beside the rest of the run:
+    #  - the exact KDE integrates to one; Phi tail property
+    #  - cumulative-function clauses (exact cdf monotone / limits / derivative; truncation bound with eps = Phi(-3.5))
+    #  - round 4: object histories, integer dtypes, shift / scale for every a > 0
+    _cdf = ["C12_exact_cdf_monotone", "C12_exact_cdf_strictly_increasing", "C12_exact_cdf_range", "C12_exact_cdf_limits",
+            "C12_exact_cdf_derivative", "C12_exact_cdf_integral", "C12_exact_cdf_at_monotone", "C12_exact_cdf_at_integral",
+            "C12_Phi_tail_sharp", "C12_Phi_tail_value", "C12_cdf_truncation_bound_lists", "C12_cdf_truncation_bound",
+            "C12_cdf_monotone_across_regions", "C12_cdf_monotone_across_regions_uniform", "C12_cdf_range",
+            "C12_cdf_far_left", "C12_cdf_far_right", "C12_exact_cdf_far_left", "C12_exact_cdf_far_right"]
+    _gn = ['GaussNorm_kde_exact_normalised', 'GaussNorm_kde_exact_total', 'GaussNorm_kde_exact_at_normalised',
+           'GaussNorm_kde_Phi_tail_property', 'GaussNorm_Phi_limits']
+    apool = ThreadPoolExecutor(max_workers=3)
+    supp = [("gaussnorm_audit", len(_gn), apool.submit(C.coq_audit, "C12_gaussnorm", _gn, "IT.Properties.GaussNorm")),
+            ("cdf_theorems_audit", len(_cdf), apool.submit(C.coq_audit, "C12_cdf", _cdf, "IT.Properties.C12Cdf")),
+            ("inputs_theorems_audit", len(THEOREMS_INPUTS),
+             apool.submit(C.coq_audit, "C12_inputs", THEOREMS_INPUTS, "IT.Properties.C12Inputs"))]
     lap("audit")
 
-    from concurrent.futures import ThreadPoolExecutor
-    pool = ThreadPoolExecutor(max_workers=3)
+    pool = ThreadPoolExecutor(max_workers=5)
 
     # ---------- 1. discrete structure, exactly ----------
     r = C.rng_for(PROP, "structure")
@@ -437,22 +944,78 @@ def run(rep: C.Report, tier: str) -> int:
                         "bandwidth": float(case["h"]), "layers": obs["n"],
                         "points": [float(p) for p in obs["points"][:6]],
                         "pdf": [float(v) for v in obs["pdf"][:6]]})
+    # round 4: the same comparison for samples handed over with an integer dtype, at extreme
+    # scales, and in containers the caller changes in place after the construction
+    rx = C.rng_for(PROP, "inputs")
+    first_extra = len(cases)
+    n_extra = {"int": 14, "scale": 10, "shared": 12} if quick else {"int": 48, "scale": 24, "shared": 48}
+    family = {}
+    for fam, gen in (("int", gen_int_case), ("scale", gen_scale_case), ("shared", gen_shared_case)):
+        for j in range(n_extra[fam]):
+            case = gen(rx, tier)
+            obs = observe_structure(case, rx)
+            family[len(cases)] = fam
+            cases.append(case)
+            obs_l.append(obs)
+            rep.count("kind=" + case["kind"].split(":")[0] + ":*")
+            if fam == "int":
+                rep.count("kind=" + case["kind"])
+            for key in ("sdtype", "xdtype", "container", "sfloat", "xfloat"):
+                if case.get(key):
+                    rep.count(f"{key}={case[key]}")
+            if case.get("sdtype") and not case.get("xdtype"):
+                rep.count("xdtype=float64 (integer sample)")
+            if case.get("hint"):
+                rep.count("bandwidth given as int")
+            if case.get("after"):
+                rep.count("caller afterwards: " + case["after"][0])
+            if case.get("scale_exp") is not None:
+                e = case["scale_exp"]
+                rep.count("scale 2^e, e " + ("<= -500" if e <= -500 else "< 0" if e < 0 else "< 500" if e < 500 else ">= 500"))
+            if case.get("raw_sample"):
+                m = max(abs(v) for v in case["raw_sample"])
+                d = max(case["raw_sample"]) - min(case["raw_sample"])
+                rep.count("integer magnitude " + ("< 2^15" if m < 2 ** 15 else "< 2^53" if m < 2 ** 53 else ">= 2^53"))
+                rep.count("integer spread " + ("< 2^32" if d < 2 ** 32 else ">= 2^32"))
+            if obs["status"] == "ok":
+                rep.count(f"layers={obs['n']}")
+            rep.case((case["sample"], case["h"], sorted(cfg_of(case).items())), nontrivial=True)
+            if j == 0 and obs["status"] == "ok":
+                rep.sample({"family": case["kind"], "sample": [float(x) for x in case["sample"][:6]],
+                            "N": len(case["sample"]), "bandwidth": float(case["h"]), "cfg": cfg_of(case),
+                            "layers": obs["n"], "points": [float(p) for p in obs["points"][:4]],
+                            "pdf": [float(v) for v in obs["pdf"][:4]]}, limit=8)
     lap("run implementation (structure)")
     suspicious = {}          # case index -> reason
-    texts = []
+    texts, dtexts = [], []
     for k, (case, obs) in enumerate(zip(cases, obs_l)):
         if obs["status"] != "ok":
             suspicious[k] = obs["error"]
             continue
         if obs["n"] > 12:
             continue
-        texts.append((k, coq_struct_case(case, obs)))
+        if case.get("sdtype"):
+            dtexts.append((k, coq_dtype_case(case, obs)))
+        else:
+            texts.append((k, coq_struct_case(case, obs)))
     files, index = [], []
     CH = 8
-    for i in range(0, len(texts), CH):
-        chunk = texts[i:i + CH]
+    std = [t for t in texts if t[0] < first_extra]
+    ext = [t for t in texts if t[0] >= first_extra]
+    chunks = [std[i:i + CH] for i in range(0, len(std), CH)]
+    CHX = 3 if quick else 6      # round-4 cases (2^-900-size rationals) are slower per case: spread them
+    chunks += [ext[i:i + CHX] for i in range(0, len(ext), CHX)]
+    for ci, chunk in enumerate(chunks):
         body = "Definition cases : list kde_case :=\n " + C.clist([t for _, t in chunk], ";\n ") + "."
-        p = C.write_case_file(PROP, f"structure_{i // CH}", HEADER, body, ["failing_codes cases 0"])
+        p = C.write_case_file(PROP, f"structure_{ci}", HEADER, body, ["failing_codes cases 0"])
+        files.append(p)
+        index.append([k for k, _ in chunk])
+    n_plain_files = len(files)
+    CH = 3 if quick else 8       # round-4 cases (large integers / 2^-900-size rationals) are slower per case: spread them
+    for i in range(0, len(dtexts), CH):
+        chunk = dtexts[i:i + CH]
+        body = "Definition cases : list dtype_case :=\n " + C.clist([t for _, t in chunk], ";\n ") + "."
+        p = C.write_case_file(PROP, f"dtype_{i // CH}", HEADER_INPUTS, body, ["failing_dtype cases 0"])
         files.append(p)
         index.append([k for k, _ in chunk])
     fut_struct = pool.submit(C.run_case_files, files, 7 if quick else 14)
@@ -461,39 +1024,55 @@ def run(rep: C.Report, tier: str) -> int:
     rg = C.rng_for(PROP, "goals")
     defs, goals = [], []
     goal_case = {}
-    n_pdf = n_cdf = 0
-    max_pdf = 100 if quick else 900
-    max_cdf = 14 if quick else 200
-    for k, (case, obs) in enumerate(zip(cases, obs_l)):
+    ng = {"pdf": 0, "cdf": 0}
+
+    def add_goals(k, budget):
+        case, obs = cases[k], obs_l[k]
         if obs["status"] != "ok" or len(case["sample"]) > 30 or obs["n"] > 12:
-            continue
-        defs.append(f"Definition s_{k} : list Q := {qlist(case['sample'])}.")
+            return
+        if k < first_extra:
+            sref = f"s_{k}"
+            defs.append(f"Definition {sref} : list Q := {qlist(case['sample'])}.")
+        else:
+            # the preamble with the definitions is re-read by every goal file: the long literals of the
+            # round-4 cases (2^-900-size rationals) go into their own goals instead
+            sref = "(" + qlist(case["sample"]) + ")"
         pts = list(range(len(obs["points"])))
         rg.shuffle(pts)
-        for i in pts[:2]:
-            if n_pdf >= max_pdf:
+        for i in pts[:(1 if case.get("scale_exp") is not None else 2)]:
+            if budget["pdf"] <= 0:
                 break
             v = C.frac(obs["pdf"][i])
-            tol = abs(v) * Fraction(1, 10 ** 9) + Fraction(1, 10 ** 30)
-            st = (f"Rabs (pdf_code_at {obs['n']} s_{k} {C.cq(case['h'])} {C.cq(obs['points'][i])} - "
+            tol = abs(v) * Fraction(1, 10 ** 9) + Fraction(1, 10 ** 30) / case.get("unit", 1)
+            st = (f"Rabs (pdf_code_at {obs['n']} {sref} {C.cq(case['h'])} {C.cq(obs['points'][i])} - "
                   f"{C.cR(v)}) <= {C.cR(tol)}")
             gid = f"pdf_{k}_{i}"
             goals.append((gid, st, "kde_pdf_goal"))
             goal_case[gid] = (k, i)
-            n_pdf += 1
-        if len(case["sample"]) <= 10 and n_cdf < max_cdf:
+            budget["pdf"] -= 1
+            ng["pdf"] += 1
+        if len(case["sample"]) <= 10 and budget["cdf"] > 0:
             # integral enclosures get expensive for |z| >> 10: stay within 6 h of the data
             lo, hi, h = min(case["sample"]), max(case["sample"]), case["h"]
             near = [i for i in pts[2:] if lo - 6 * h <= obs["points"][i] <= hi + 6 * h]
             if near:
                 i = near[0]
                 v = C.frac(obs["cdf"][i])
-                st = (f"Rabs (cdf_code_at {obs['n']} s_{k} {C.cq(case['h'])} {C.cq(obs['points'][i])} - "
+                st = (f"Rabs (cdf_code_at {obs['n']} {sref} {C.cq(case['h'])} {C.cq(obs['points'][i])} - "
                       f"{C.cR(v)}) <= {C.cR(Fraction(1, 10 ** 8))}")
                 gid = f"cdf_{k}_{i}"
                 goals.append((gid, st, "kde_cdf_goal"))
                 goal_case[gid] = (k, i)
-                n_cdf += 1
+                budget["cdf"] -= 1
+                ng["cdf"] += 1
+
+    budget = {"pdf": 100 if quick else 900, "cdf": 14 if quick else 200}
+    for k in range(first_extra):
+        add_goals(k, budget)
+    budget_x = {"pdf": 72 if quick else 150, "cdf": 8 if quick else 16}       # round-4 cases: their own budget
+    for k in range(first_extra, len(cases)):
+        add_goals(k, budget_x)
+    n_pdf, n_cdf = ng["pdf"], ng["cdf"]
     pre = GOAL_PREAMBLE + "\n".join(defs) + "\n"
     # cdf goals are the slow ones: spread them over the chunks
     goals.sort(key=lambda g: g[0].startswith("cdf"))
@@ -544,21 +1123,68 @@ def run(rep: C.Report, tier: str) -> int:
     fut_bw = pool.submit(I.check_goals, PROP, "bandwidth", bw_goals, GOAL_PREAMBLE, "", 28, 2 if quick else 6, 600)
     lap("generate goals")
 
+    # ---------- 3b. object histories: buffers, estimators, the caller's in-place updates ----------
+    rh = C.rng_for(PROP, "history")
+    hists, hist_runs = [], []
+    for k in range(16 if quick else 80):
+        hist = gen_history(rh, tier)
+        evs, obs, bad = run_history(hist)
+        hists.append(hist)
+        hist_runs.append((evs, obs, bad))
+        for ev in hist["events"]:
+            rep.count("history event=" + ev["ev"] + (":" + ev["view"] if ev["ev"] == "construct" else ""))
+        rep.count(f"history estimators={sum(1 for e in hist['events'] if e['ev'] == 'construct')}")
+        rep.case(("history", hist["cells_hex"], repr(hist["events"])), nontrivial=True)
+        if k == 0:
+            rep.sample({"history": hist["events"], "buffers": [[float.fromhex(v) for v in c] for c in hist["cells_hex"]]},
+                       limit=9)
+    hfiles, hindex = [], []
+    HCH = 8
+    complete = [k for k, (evs, obs, bad) in enumerate(hist_runs) if len(obs) == len(hists[k]["events"])]
+    for i in range(0, len(complete), HCH):
+        chunk = complete[i:i + HCH]
+        body = ("Definition cases : list hist_case :=\n " +
+                C.clist([coq_hist_case(hists[k], hist_runs[k][0], hist_runs[k][1]) for k in chunk], ";\n ") + ".")
+        hfiles.append(C.write_case_file(PROP, f"history_{i // HCH}", HEADER_INPUTS, body, ["failing_hist cases 0"]))
+        hindex.append(chunk)
+    fut_hist = pool.submit(C.run_case_files, hfiles, 3 if quick else 8)
+    lap("histories")
+
     # ---------- 4. [R] runs on the implementation while Coq works ----------
     rs = C.rng_for(PROP, "search")
     step = 6 if quick else 3
     n_oracle = 0
-    for k in range(0, len(cases), step):
+    for k in range(0, first_extra, step):
         if obs_l[k]["status"] != "ok":
             continue
-        bad = property_failures(cases[k]["sample"], cases[k]["h"], obs_l[k]["points"], rs)
+        bad = case_failures(cases[k], obs_l[k]["points"], rs)
         n_oracle += 1
         if bad:
             small = shrink_struct(cases[k], obs_l[k]["points"])
             rep.violation("C12/property", "; ".join(bad[:2]),
                           {"check": "values", "case": describe(small[0], small[1])}, True)
             break
+    told = set()
+    for k in range(first_extra, len(cases)):          # every round-4 case; one report per family
+        if obs_l[k]["status"] != "ok" or family[k] in told:
+            continue
+        bad = case_failures(cases[k], obs_l[k]["points"], rs, deep=(quick or k % 3 == 0))
+        n_oracle += 1
+        if bad:
+            told.add(family[k])
+            small = shrink_struct(cases[k], obs_l[k]["points"])
+            rep.violation("C12/property", "; ".join(bad[:2]),
+                          {"check": "values", "family": family[k], "case": describe(small[0], small[1])}, True)
     rep.coverage["oracle_runs_R"] = n_oracle
+    n_hist_bad = 0
+    for k, (evs, obs, bad) in enumerate(hist_runs):
+        if bad:
+            n_hist_bad += 1
+            if n_hist_bad == 1:
+                small = shrink_history(hists[k])
+                b2 = run_history(small)[2] or bad
+                rep.violation("C12/property", "; ".join(b2[:2]), {"check": "history", "history": small}, True)
+    rep.coverage["history_runs_R"] = {"histories": len(hists), "failing": n_hist_bad}
     n_eq = 0
     for kind, s in bw_samples[: (6 if quick else 40)]:
         for mode in ("simple", "cv"):
@@ -584,9 +1210,19 @@ def run(rep: C.Report, tier: str) -> int:
     lap("[R] runs")
 
     # ---------- 5. collect the Coq results ----------
+    for key, n_th, f in supp:
+        try:
+            rep.coverage[key] = f.result()
+            rep.obligation(True, n_th)
+        except C.ProofFailure as _e:
+            rep.obligation(False, n_th)
+            rep.violation("C12/proof", f"proof obligation no longer checks: {_e.what}",
+                          {"theorem_or_correspondence": _e.what, "log": _e.log[-1000:]}, False)
+    apool.shutdown()
+    lap("wait: supplementary audits")
     outs = fut_struct.result()
     n_checked = 0
-    for p, idx, (ok, res, log) in zip(files, index, outs):
+    for fno, (p, idx, (ok, res, log)) in enumerate(zip(files, index, outs)):
         if not ok or 0 not in res:
             rep.obligation(False)
             rep.violation("C12/correspondence-run", f"case file {p.name} did not evaluate",
@@ -598,13 +1234,45 @@ def run(rep: C.Report, tier: str) -> int:
         cm = {codes[j]: codes[j + 1] for j in range(0, len(codes) - 1, 2)}
         for j in sorted(cm):
             code = cm[j]
-            what = [BITS[b] for b in range(7) if code >> b & 1]
+            what = []
+            if fno >= n_plain_files:       # dtype cases: three conversion bits, then the structure bits
+                what = [DTYPE_BITS[b] for b in range(3) if code >> b & 1]
+                code >>= 3
+            what += [BITS[b] for b in range(7) if code >> b & 1]
             suspicious[idx[j]] = "model and implementation disagree on: " + ", ".join(what)
-            for b in range(7):
-                if code >> b & 1:
-                    rep.count("disagree:" + BITS[b].split(" (")[0])
+            for w in what:
+                rep.count("disagree:" + w.split(" (")[0])
     rep.coverage["structures_validated_against_impl"] = n_checked
     lap("wait: structure in Coq")
+
+    n_hist_ok = 0
+    for p, idx, (ok, res, log) in zip(hfiles, hindex, fut_hist.result()):
+        if not ok or 0 not in res:
+            rep.obligation(False)
+            rep.violation("C12/correspondence-run", f"case file {p.name} did not evaluate",
+                          {"theorem_or_correspondence": f"correspondence file {p.name}", "log": log[-800:]}, False)
+            continue
+        rep.obligation(True)
+        codes = res[0]
+        cm = {codes[j]: codes[j + 1] for j in range(0, len(codes) - 1, 2)}
+        n_hist_ok += len(idx) - len(cm)
+        for j in sorted(cm):
+            k = idx[j]
+            rep.count("disagree:object history")
+            if hist_runs[k][2] or any(v["replay"].get("check") == "history" for v in rep.violations):
+                continue            # already reported with its failing input
+            small = shrink_history(hists[k])
+            b2 = run_history(small)[2]
+            ev = hists[k]["events"][cm[j] - 1]["ev"] if 0 < cm[j] <= len(hists[k]["events"]) else "?"
+            why = (f"object-history model and implementation disagree after event {cm[j] - 1} ({ev}): an array the "
+                   f"caller holds or an estimator's stored sample is not what Model.KdeInputs.run gives")
+            if b2:
+                rep.violation("C12/property", "; ".join(b2[:2]), {"check": "history", "history": small, "why": why}, True)
+            else:
+                rep.violation("C12/correspondence", why + " -- the property was not seen to fail on this history",
+                              {"theorem_or_correspondence": "Model.KdeInputs.check_history", "history": hists[k]}, False)
+    rep.coverage["histories_validated_against_impl"] = n_hist_ok
+    lap("wait: histories in Coq")
 
     failed, broken = fut_vals.result()
     rep.obligation(True, len(goals) - len(failed))
@@ -648,15 +1316,17 @@ def run(rep: C.Report, tier: str) -> int:
     for k in sorted(suspicious):
         if reported >= 3:
             break
+        if family.get(k) in told:
+            continue                # this family of inputs was already reported with a failing input
         case, obs = cases[k], obs_l[k]
-        pts = obs.get("points") or [min(case["sample"]), max(case["sample"])]
-        bad = property_failures(case["sample"], case["h"], pts, rs)
+        pts = obs.get("points") or fit_points(case, [min(case["sample"]), max(case["sample"])])
+        bad = case_failures(case, pts, rs)
         if not bad:
             # targeted search: points within 3.4 bandwidths of a sample (where a kernel left out of the
             # slice would exceed the truncation bound)
             uniq = sorted(set(case["sample"]))[:40]
-            extra = [x + Fraction(c, 5) * case["h"] for x in uniq for c in range(-17, 18)]
-            b2 = property_failures(case["sample"], case["h"], extra, rs, deep=False)
+            extra = fit_points(case, [x + Fraction(c, 5) * case["h"] for x in uniq for c in range(-17, 18)])
+            b2 = case_failures(case, extra, rs, deep=False)
             if b2:
                 bad, pts = b2, extra
         if not bad:
@@ -664,23 +1334,27 @@ def run(rep: C.Report, tier: str) -> int:
             # on and next to the samples
             for div in (8, 64, 512):
                 h2 = case["h"] / div
+                c2 = {kk: v for kk, v in dict(case, h=h2).items() if kk != "hint"}
                 uniq = sorted(set(case["sample"]))[:40]
-                extra = [x + Fraction(c, 2) * h2 for x in uniq for c in (-2, -1, 0, 1, 2)]
+                extra = fit_points(case, [x + Fraction(c, 2) * h2 for x in uniq for c in (-2, -1, 0, 1, 2)])
                 try:
-                    b2 = property_failures(case["sample"], h2, extra, rs, deep=False)
+                    b2 = case_failures(c2, extra, rs, deep=False)
                 except MemoryError:
                     break
                 if b2:
-                    bad, pts, case = b2, extra, dict(case, h=h2)
+                    bad, pts, case = b2, extra, c2
                     break
         reported += 1
         if bad:
+            if family.get(k):
+                told.add(family[k])
             small = shrink_struct(case, pts)
             rep.violation("C12/property", "; ".join(bad[:2]),
                           {"check": "values", "case": describe(small[0], small[1]), "why": suspicious[k]}, True)
         else:
             rep.violation("C12/correspondence", suspicious[k] + " -- the property was not seen to fail on this input",
-                          {"theorem_or_correspondence": "Model.KdeRegions.check_structure / RealModel.Kde goals",
+                          {"theorem_or_correspondence": "Model.KdeRegions.check_structure / Model.KdeInputs.check_dtype / "
+                                                        "RealModel.Kde goals",
                            "case": describe(case, pts)}, False)
     rep.coverage["correspondence_disagreements"] = len(suspicious)
     lap("search")
@@ -698,6 +1372,13 @@ def run(rep: C.Report, tier: str) -> int:
         "outside the data. NOT PROVED: optimality of the "
         "cross-validated bandwidth; bandwidth search beyond its first five grid points is tied only by [R] "
         "equivariance runs",
+        "round 4 (Properties/C12Inputs.v): an estimator keeps the sorted values it was handed whatever the caller "
+        "does to its arrays before / afterwards (object-history model, compared after every event); the repaired "
+        "constructor converts an integer sample to binary64 (to_double, checked against Python's int -> float on "
+        "every integer case: exact up to 2^53, at most half an ulp beyond); pinned x - sample in the integer "
+        "type refuted (D52); exact pdf / cdf covariant under x -> a x + b for every rational a > 0 (all scales). "
+        "Integer cases use values whose binary64 images have short significands, so that numpy.linspace is exact "
+        "(the model computes the region edges exactly, as for every other case)",
     ]
     return rep.finish(
         level="proof",
@@ -709,7 +1390,16 @@ def run(rep: C.Report, tier: str) -> int:
         rule="samples: ints with ties / dyadic / two clusters / outlier / heavy-tailed (N 3..60), bandwidth dyadic, "
              "log-uniform in [range/3500, 100 range] (up to 12 layers / 4096 regions); 16 evaluation points per case: inside, exactly on region edges, "
              "on samples, just outside, far outside; a case counts as distinct by (sample, bandwidth); bandwidth-mode "
-             "and cdf runs use seeded float samples (normal / bimodal / skewed / heavy / ties)")
+             "and cdf runs use seeded float samples (normal / bimodal / skewed / heavy / ties); "
+             "round 4, each with its own structure / value comparison: integer-typed samples and points (int8..uint64: "
+             "narrow types using most of their range, counts, (A+m)2^j time-stamps with differences up to 2^52, values "
+             "beyond 2^53 that the conversion rounds; points of the same, another integer, or float dtype; bandwidth "
+             "as int), whole cases scaled by 2^e with |e| in 60..400 / 500..900, samples handed over as list / ordered "
+             "array / ordered slice / strided view / 2-D array that the caller rescales, refills, reverses or zeroes in "
+             "place before the tables are read back; object histories of 4-7 events over 1-2 buffers (construct from "
+             "whole / slice / strided / reversed / 2-D views in the three bandwidth modes, affine update, refill, "
+             "evaluate) compared after every event; every round-4 case also goes through the property oracle "
+             "(incl. float64 copy of the same values, shift / scale by 2^+-10 and 2^+-600)")
 
 
 def cdf_failures(s, mode, r):
@@ -748,15 +1438,24 @@ def cdf_failures(s, mode, r):
 
 
 def shrink_struct(case, pts):
-    def fails(xs):
+    raw = case.get("raw_sample")
+
+    def sub(idx):
+        c2 = dict(case, sample=[case["sample"][i] for i in idx])
+        if raw is not None:
+            c2["raw_sample"] = [raw[i] for i in idx]
+        return c2
+
+    def fails(idx):
+        xs = [case["sample"][i] for i in idx]
         if len(set(xs)) < 2 or len(xs) < 3:
             return False
-        return bool(property_failures(xs, case["h"], pts, deep=False))
-    if not property_failures(case["sample"], case["h"], pts, deep=False):
+        return bool(case_failures(sub(idx), pts, deep=False))
+    if not case_failures(case, pts, deep=False):
         return case, pts
-    xs = C.shrink_list(case["sample"], fails, min_len=3, budget=60)
-    c2 = dict(case, sample=xs)
-    p2 = C.shrink_list(pts, lambda ps: len(ps) >= 1 and bool(property_failures(xs, case["h"], ps, deep=False)),
+    idx = C.shrink_list(list(range(len(case["sample"]))), fails, min_len=3, budget=60)
+    c2 = sub(idx)
+    p2 = C.shrink_list(pts, lambda ps: len(ps) >= 1 and bool(case_failures(c2, ps, deep=False)),
                        min_len=1, budget=40)
     return c2, p2
 
@@ -767,10 +1466,10 @@ def replay(path):
     chk = rp.get("check")
     if chk == "values":
         c = rp["case"]
-        sample = [C.frac(float.fromhex(v)) for v in c["sample_hex"]]
-        h = C.frac(float.fromhex(c["bandwidth_hex"]))
         pts = [C.frac(float.fromhex(v)) for v in c["points_hex"]]
-        bad = property_failures(sample, h, pts)
+        bad = case_failures(case_from_replay(c), pts)
+    elif chk == "history":
+        bad = run_history(rp["history"])[2]
     elif chk == "bandwidth":
         s = [float.fromhex(v) for v in rp["sample_hex"]]
         bad = bandwidth_equivariance_failures(s, rp["mode"])
